@@ -11,6 +11,12 @@ CLAIMED = {
  "C04": dict(cat="exploration", ref="DESIGN.md §3.3", tech="deterministic simulation: seeded interleavings of positional and stream clients with integer-limit arguments, step-wise refinement against a reference model, boundary sweeps",
    text="Seeded simulation interleaving positional, stream-reader and stream-writer accesses of every width and bit pattern with addresses/lengths at the data boundary and at the integer limits; return value (value or out-of-bounds error), cursor movement and full archive state are compared with the reference model after every step, in overflow-checked and wrapping builds; each run also sweeps every accessor over size-8..=size+8 and usize::MAX-8..=usize::MAX.",
    note="Trusted: ArchModel (bounds, endianness, locality rules) and harness oracles; empty ranges and the cursor after a failed access are outside the statement and not judged."),
+ "C02": dict(cat="exploration", ref="DESIGN.md §3.2", tech="deterministic simulation: seeded hash states x interleaved build histories x persist/reload, compared with a reference canonical writer",
+   text="Several builder clients construct the same content through different seeded, interleaved call histories, clones through parse and round trips through the simulated disk, each under hash states drawn from the run seed (the hidden nondeterminism the property is about: HashMap iteration order). Equal content must give identical bytes; every image must equal the reference writer's canonical image; parse -> serialize must be the identity on it. Exploration is the right level: the quantifier ranges over call orders and per-instance hash seeds, which one deterministic test run cannot vary.",
+   note="Trusted: the reference canonical writer/reader and ArchModel (harness code); the cfg seam (seeded hash state instead of RandomState). If the hooked build fails the check falls back to the plain build (hash order then varies with the OS seed; reported as hash_state_seam=unavailable)."),
+ "C07": dict(cat="exploration", ref="DESIGN.md §3.4", tech="deterministic simulation: seeded operation histories with save/reload as an operation, step-wise refinement against an insertion-ordered list model",
+   text="Seeded histories of set / delete / has / get / set_title / idempotence probe / serialize / save-and-reload on one TextArchive, compared after every step with an insertion-ordered list model (order, values, escaping, dirty flag) and with the label order of the serialized image read by an independent reader. Exploration is the right level: the property quantifies over histories; deletion and re-insertion orders are what the three unit tests never reach.",
+   note="Trusted: the list model and reference image reader (harness code). After a reload the model is re-synchronised (content preservation is C06, not claimed)."),
 }
 NA = {
  "C01": "pure function: parse(serialize(a)) of one in-memory value and parsing of re-arranged images; no schedule, clock, fault or shared state in the quantifier (inputs x configurations only) - input generation alone would decide it, which is not simulation",
